@@ -916,7 +916,8 @@ impl ResponseVariantFragment {
 impl ToTokens for ResponseVariantFragment {
   fn to_tokens(&self, tokens: &mut TokenStream) {
     let variant_name = &self.variant.variant_name;
-    let doc_line = self.variant.doc_line();
+    // rustc rejects a lone carriage return inside a doc comment
+    let doc_line = self.variant.doc_line().replace('\r', " ");
     let content = self.variant.schema_type.as_ref().map(|schema| {
       quote! { (#schema) }
     });
